@@ -584,8 +584,15 @@ def run(ctx):
     # 6. BufferedStream
     from .. import bytebuffer
     bytebuffer.run(ctx, stats.pop("bb_traces"))
-    ctx.assumptions.append("BOM sniffing: a byte stream returns the first 4 bytes in one read (detectBOM does not loop)")
-    ctx.assumptions.append("sources return '' only at the end; read(n) never returns more than n items")
+    ctx.assumptions += [
+        "BOM sniffing: a short-read byte source returns the first 4 bytes in one read when a BOM declares the encoding "
+        "(detectBOM does one read(4) and does not loop; with reads of 1-2 bytes the BOM is missed or seek() asserts)",
+        "sources return '' / b'' only at the end; read(n) never returns more than n items",
+        "intended timing of stream-level invalid-codepoint errors = the tokenizer step that first consumes the character",
+        "lead-surrogate withholding follows the code in both configurations (no observable effect on UCS-4 builds)",
+        "byte inputs are valid encodings of the text (malformed sequences / errors='replace' are not 'the same characters')",
+        "the codecs StreamReader (stdlib) is trusted; its output is checked to spell the source text in every trace",
+        "client discipline: unget only of the characters last obtained by char(), LIFO (what the tokenizer does)"]
 
 
 def redrive_client(c):
